@@ -9,6 +9,7 @@ import SmppVerif.Model.Time
 import SmppVerif.Model.Receipt
 import SmppVerif.Model.Split
 import SmppVerif.Model.Policy
+import SmppVerif.Model.Gate
 import SmppVerif.Model.DriverCorr
 import SmppVerif.Model.DriverPdu
 import SmppVerif.Model.DriverJson
@@ -72,6 +73,26 @@ def parseRat (s : String) : Option Rat :=
   | _ => none
 
 def showRat (r : Rat) : String := s!"{r.num}/{r.den}"
+
+def parseGateEv (w : String) : Option Gate.Ev :=
+  if w = "ft" then some (.feed true) else if w = "fn" then some (.feed false) else if w = "w" then some .write
+  else if w.front = 'c' then
+    match ((w.drop 1).toString).splitOn ":" with
+    | [t, "1"] => (parseRat t).map (Gate.Ev.consult · true)
+    | [t, "0"] => (parseRat t).map (Gate.Ev.consult · false)
+    | _ => none
+  else none
+
+def parseGateInp (w : String) : Option Gate.Inp :=
+  if w = "rt" then some (.resp true) else if w = "rn" then some (.resp false)
+  else if w.front = 't' then (parseRat (w.drop 1).toString).map .turn
+  else none
+
+def showGateEv : Gate.Ev → String
+  | .feed true => "ft"
+  | .feed false => "fn"
+  | .write => "w"
+  | .consult t r => s!"c{showRat t}:{if r then 1 else 0}"
 
 /-- back-off script: 'w' = wait (prints the delay), 'r' = reset -/
 def runBackoff (b : Policy.Backoff) : List Char → List String → Option (List String)
@@ -181,6 +202,20 @@ def step (line : String) : String :=
         | t :: ts, acc => let (b', p) := b.attempt t; go b' ts ((if p then "1" else "0") :: acc)
       "ok " ++ " ".intercalate (go (Policy.Bucket.init r t0) ts [])
     | _, _, _ => "bad-op"
+  | "gate.mon" :: period :: sample :: deny :: t0 :: evs =>
+    -- the observed gate events of a session: ft / fn feeds, c<time>:<0|1> consultations, w writes
+    match parseRat period, parseRat sample, parseRat deny, parseRat t0, evs.mapM parseGateEv with
+    | some p, some s, some d, some t0, some evs =>
+      (match Gate.firstReject ⟨⟨p, s, d, 0, 0, t0⟩, false⟩ 0 evs with
+       | none => "accept"
+       | some i => s!"reject {i}")
+    | _, _, _, _, _ => "bad-op"
+  | "gate.sender" :: period :: sample :: deny :: t0 :: n :: inps =>
+    -- the Sender at the gate under a schedule: rt / rn responses, t<time> turns
+    match parseRat period, parseRat sample, parseRat deny, parseRat t0, n.toNat?, inps.mapM parseGateInp with
+    | some p, some s, some d, some t0, some n, some inps =>
+      "ok " ++ " ".intercalate ((Gate.sender ⟨p, s, d, 0, 0, t0⟩ n inps).map showGateEv)
+    | _, _, _, _, _, _ => "bad-op"
   | "th.run" :: period :: sample :: deny :: t0 :: ops =>
     match parseRat period, parseRat sample, parseRat deny, parseRat t0 with
     | some p, some s, some d, some t0 =>
